@@ -1,7 +1,7 @@
 /* re-insertion of the large list: whatever is put back at its head is larger than the maximum the manager knows */
 #define LOOP_original_grid__requestChunk_1 \
-    __CPROVER_assigns(curr, g_adds, self->large_holes, self->holes_bottom, self->holes_top, self->holes_current, __CPROVER_object_whole(self->data)) \
-    __CPROVER_loop_invariant(curr >= 0 && HOLE_OR_0(self, curr) && self->data[0] == 0) \
+    __CPROVER_assigns(curr, g_adds, g_refiled, self->large_holes, self->holes_bottom, self->holes_top, self->holes_current, __CPROVER_object_whole(self->data)) \
+    __CPROVER_loop_invariant(curr >= 0 && HOLE_OR_0(self, curr) && self->data[0] == 0 && (curr == 0 || (size_t)curr != g_refiled)) \
     __CPROVER_loop_invariant(self->large_holes >= 0 && (self->large_holes == 0 || (HOLE_OK(self, self->large_holes) && TAGSIZE(self, self->large_holes) > self->max_request))) \
     __CPROVER_loop_invariant(GRID_OR_0(self, self->holes_bottom) && GRID_OR_0(self, self->holes_current) && self->holes_bottom >= 0 && self->holes_current >= 0)
 #define LOOP_original_grid__requestChunk_2 \
